@@ -34,10 +34,12 @@ def wrap(v, ty):
 class Evaluator:
     """Evaluates expression trees with an environment {access path or var id -> int}."""
 
-    def __init__(self, fb, max_depth=8, enum_types=None):
+    def __init__(self, fb, max_depth=8, enum_types=None, stubs=None, ctor_hook=None):
         self.fb = fb
         self.max_depth = max_depth
         self.enum_types = enum_types or {}
+        self.stubs = stubs or {}          # qualified callee name -> f(evaluator, call tree, env, depth) -> value
+        self.ctor_hook = ctor_hook        # f(class name, [argument values]) -> value, or None
 
     def eval(self, t, env, depth=0):
         if not isinstance(t, dict):
@@ -99,6 +101,10 @@ class Evaluator:
             # single-member wrapper classes (Square): value of the only argument
             if len(t.get('args', [])) == 1:
                 return self.eval(t['args'][0], env, depth)
+            if self.ctor_hook is not None:
+                r = self.ctor_hook(t.get('cls'), [self.eval(a, env, depth) for a in t.get('args', []) if not (isinstance(a, dict) and a.get('defarg'))])
+                if r is not None:
+                    return r
             raise Unknown('ctor')
         if 'cv' in t:
             return t['cv']
@@ -134,6 +140,12 @@ class Evaluator:
             raise Unknown('depth')
         n = cname(t)
         last = n.split('::')[-1]
+        if n in self.stubs:
+            return self.stubs[n](self, t, env, depth)
+        if t.get('op') in ('==', '!=') and len(([t['recv']] if t.get('recv') is not None else []) + t.get('args', [])) == 2:
+            xs = ([t['recv']] if t.get('recv') is not None else []) + t.get('args', [])
+            a, b = self.eval(xs[0], env, depth), self.eval(xs[1], env, depth)
+            return int((a == b) == (t['op'] == '=='))
         if n in ('std::min', 'std::max'):
             a = self.eval(t['args'][0], env, depth)
             b = self.eval(t['args'][1], env, depth)
@@ -214,6 +226,14 @@ class Evaluator:
                             pass
                 elif k in ('acc', 'dtor', 'lambda'):
                     continue
+                elif k == 'call' and cname(e).split('::')[-1] == 'operator=' and isinstance(e.get('recv'), dict) and e['recv'].get('k') == 'var' and len(e.get('args', [])) == 1:
+                    # assignment to a local of a value class (Square s; s = G1;)
+                    tgt = self.lhs_key(e['recv'])
+                    try:
+                        env[tgt] = self.eval(e['args'][0], env, depth)
+                    except Unknown:
+                        env.pop(tgt, None)
+                    continue
                 elif k == 'call':
                     # calls are evaluated where their value is used; a call on `this` to a non-const
                     # sibling method is executed for its effect on the fields of `this`
@@ -241,6 +261,21 @@ class Evaluator:
                 continue
             term = blk.get('term') or {}
             from .core import eff_cond
+            if term.get('c') == 'SwitchStmt' and term.get('cond') is not None:
+                val = self.eval(term['cond'], env, depth)
+                nxt = dflt = other = None
+                for s_ in succ:
+                    lb = func.blocks[s_].get('label') or {}
+                    if lb.get('k') == 'case' and lb.get('v') == val:
+                        nxt = s_
+                    elif lb.get('k') == 'default':
+                        dflt = s_
+                    elif lb.get('k') != 'case':
+                        other = s_
+                b = nxt if nxt is not None else dflt if dflt is not None else other
+                if b is None:
+                    raise Unknown('switch without a matching arm')
+                continue
             c = eff_cond(term)
             if c is None or term.get('c') in ('SwitchStmt', 'CXXTryStmt'):
                 raise Unknown('branch')
